@@ -60,6 +60,18 @@ CHECKS['C05'] = dict(engine='Taproot', tech='TLA+ spec (Taproot.tla on SymCrypto
 CHECKS['C17'] = dict(engine='Adapter', tech='TLA+ spec (Adapter.tla on SymCrypto.tla) with TLC over signer x message x tweak x alteration x decryption scalar + replay through the four adapter instructions with two independent verifiers + TLC judging of random scenarios, single-bit corruptions and the builders end to end',
                 text='Adapter signatures are specified on the symbolic algebra; TLC checks CheckHonest / CheckFailsIfAltered / DecryptVerifies / ExtractRecovers / AdapterNotASig on every case (and that the implemented private-tweak construction deviates: finding F13); every case is concretised incl. edge scalars 1 and L-1 and the decrypted signature is verified by the pure-Python RFC 8032 verifier and PyNaCl; random scenarios with single-bit corruption of each check input and the lock / witness / decrypt builders are judged by TLC.',
                 ref='5 C17', note=SYM_NOTE)
+CHECKS['C13'] = dict(engine='Locks', tech='TLA+ spec (Locks.tla: each lock script executed on symbolic items with ideal signatures vs declarative Intended) with TLC over all lock x witness-builder cross-pairings x perturbations + replay with the real builders + TLC judging of random scenarios',
+                text='Six locks are modelled operationally as their scripts execute on symbolic stack items and TLC proves Accept <=> Intended over all 4,536 combinations of lock, witness builder (every cross-pairing), key, covered / excluded field change, flag class, committed / surrogate script and surrogate signer; each case is built with the real builders (honest assemblies must equal the builders\' bytes) and run through run_auth_scripts; random scenarios are judged by TLC.',
+                ref='5 C13', note=SYM_NOTE)
+CHECKS['C14'] = dict(engine='Delegation', tech='TLA+ spec (Delegation.tla: chain lock as a state machine, one step per certificate; 105-byte certificate layout) with TLC over all chains up to N + replay with the real cert / witness / lock builders under a pinned clock + TLC running the machine on recorded random chains',
+                text='TLC explores every chain of certificates (delegate, signer, six window positions incl. t = begin, t = end - 1, t = end and beyond-slack, may-delegate) with invariants AcceptIffValidChain and AuthIsCertified, plus CertRoundTrip on the byte layout; each chain is concretised with real keys and builders and run through run_auth_scripts; chains up to 6 with random timestamps and single-byte certificate corruptions are judged by TLC.',
+                ref='5 C14', note=SYM_NOTE)
+CHECKS['C15'] = dict(engine='Htlc', tech='TLA+ spec (Htlc.tla: the six lock scripts executed on symbolic items vs ClaimOK / RefundOK) with TLC over all lock x witness cross-pairings x signer x preimage x time + replay with the real builders under pinned clocks + TLC judging of random scenarios',
+                text='TLC proves Accept <=> ClaimOK or RefundOK over 960 combinations (6 locks x 4 witness builders x 5 signers incl. right / wrong tweak x preimage x 4 time positions around the deadline and beyond the slack); every case is built with the real builders with tools.time pinned at creation and functions.time at the check; random seeds, preimage lengths, digest sizes, timeouts, tweaks and flags are judged by TLC.',
+                ref='5 C15', note=SYM_NOTE)
+CHECKS['C18'] = dict(engine='Amhl', tech='TLA+ spec (Amhl.tla on SymCrypto.tla: state machine of open / release attempts with every known scalar) with TLC over all interleavings for 2..N hops + replay of every attempt on a real chain (setup_amhl, adapter witnesses, decrypt_adapter, release_left_amhl_lock) + TLC judging of random attempts',
+                text='The release cascade is a state machine in which any claimant may try any hop with any scalar known so far; TLC checks OnlyRightToLeft, RightScalarOnly, ReleaseExact, SetupConsistent and CascadeCompletes over every interleaving; each attempt is replayed on a real chain whose keys come from the real release cascade, with independent recomputation of every tweak point and key; chains up to 8 hops with refund keys and random attempt orders are judged by TLC.',
+                ref='5 C18', note=SYM_NOTE)
 NOT_YET = {}
 
 props = [json.loads(l) for l in open(os.path.join(ROOT, 'properties.jsonl'))]
@@ -93,6 +105,10 @@ manifest = {
         'add_only': True,
     },
     'engines': [
+        {'name': 'Locks', 'path': '/verif/spec/Locks.tla', 'serves_properties': ['C13'], 'kind_free_text': 'signature / commitment lock builders'},
+        {'name': 'Delegation', 'path': '/verif/spec/Delegation.tla', 'serves_properties': ['C14'], 'kind_free_text': 'delegation chain lock state machine'},
+        {'name': 'Htlc', 'path': '/verif/spec/Htlc.tla', 'serves_properties': ['C15'], 'kind_free_text': 'HTLC / PTLC locks'},
+        {'name': 'Amhl', 'path': '/verif/spec/Amhl.tla', 'serves_properties': ['C18'], 'kind_free_text': 'anonymous multi-hop lock cascade'},
         {'name': 'SymCrypto', 'path': '/verif/spec/SymCrypto.tla', 'serves_properties': ['C05', 'C17', 'C18', 'C13', 'C15'], 'kind_free_text': 'symbolic scalar / point / hash algebra'},
         {'name': 'Merkle', 'path': '/verif/spec/Merkle.tla', 'serves_properties': ['C04'], 'kind_free_text': 'merklized script trees'},
         {'name': 'Taproot', 'path': '/verif/spec/Taproot.tla', 'serves_properties': ['C05'], 'kind_free_text': 'taproot root and spend paths'},
